@@ -1,7 +1,10 @@
 /-
-  Pad: model of `CommInterfaceCommon.data_align` / `write` (intf/iintf.py).
+  Pad: model of `CommInterfaceCommon.data_align` / `write` (intf/iintf.py), and of the composition
+  `intf.write(parser.frame_xxx(...))` for every request the client can issue (proto/parse.py builders,
+  modelled in `Requests.lean`).
 -/
 import NxsModel.Bytes
+import NxsModel.Requests
 namespace Nxs
 namespace Pad
 
@@ -11,6 +14,37 @@ def dataAlign (p : Nat) (d : Bytes) : Bytes :=
     let m := d.length % p
     if m ≠ 0 then d ++ List.replicate (p - m) 0 else d
   else d
+
+/-- every request the client can issue (`n` is the channel count the client learned, `chmax`):
+    `frame_start(b)`, `frame_cmninfo()`, `frame_chinfo(c)`, `frame_enable((c, v), n)`, `frame_enable(vs, n)`,
+    `frame_div((c, v), n)`, `frame_div(vs, n)` (the vector forms choose ALL or BULK themselves) -/
+inductive ClientReq where
+  | start (b : Bool)
+  | cmninfo
+  | chinfo (c : Nat)
+  | enSingle (n c : Nat) (v : Bool)
+  | enVec (n : Nat) (vs : List Bool)
+  | divSingle (n c v : Nat)
+  | divVec (n : Nat) (vs : List Nat)
+  deriving Repr, DecidableEq
+
+/-- the `Parser` builder that is called for the request -/
+def ClientReq.build : ClientReq → Except Err Bytes
+  | .start b => Requests.frameStart b
+  | .cmninfo => Requests.frameCmninfo
+  | .chinfo c => Requests.frameChinfo c
+  | .enSingle n c v => Requests.frameEnable (.single c v) n
+  | .enVec n vs => Requests.frameEnable (.vec vs) n
+  | .divSingle n c v => Requests.frameDiv (.single c v) n
+  | .divVec n vs => Requests.frameDiv (.vec (vs.map Int.ofNat)) n
+
+/-- `intf.write_padding = p; intf.write(parser.frame_xxx(…))`: the bytes handed to the interface-specific
+    `_write` (nothing is written when the builder raises).  Neither the `Parser` nor the interface keeps
+    anything from earlier requests or paddings, so a history of writes is the list of these. -/
+def ClientReq.written (p : Nat) (r : ClientReq) : Except Err Bytes :=
+  match r.build with
+  | .ok f => .ok (dataAlign p f)
+  | .error e => .error e
 
 end Pad
 end Nxs
